@@ -623,6 +623,69 @@ func TestC14(t *testing.T) {
 	rec.Suite("handler-waits-for-closenotify", 3*rec.N(2, 60), func(c *ev.Case) {
 		handlerWaits(c, "ERL"[c.I%3], true)
 	})
+	// an order of three: the channel is first requested from outside a handler while the reader
+	// is blocked in Read (as sm.Client's watchdog does); the next message arrives in that very
+	// Read; its handler asks for the channel again and waits; the peer goes away
+	rec.Suite("handler-waits-after-outside-request", 3*rec.N(2, 40), func(c *ev.Case) {
+		tm := "ERL"[c.I%3]
+		c.Class("handler-waits-after-outside-request/term=%c", tm)
+		run(c, string(tm), func() {
+			sig := func(op string) ev.Sig {
+				return ev.Sig{"op": op, "termination": string(tm), "variant": "handler-waits-after-outside-request"}
+			}
+			var woke, entered atomic.Bool
+			giveUp := make(chan struct{})
+			defer func() {
+				close(giveUp)
+				synctest.Wait()
+			}()
+			hf := diam.HandlerFunc(func(dc diam.Conn, m *diam.Message) {
+				ch := dc.(diam.CloseNotifier).CloseNotify()
+				entered.Store(true)
+				select {
+				case <-ch:
+					woke.Store(true)
+				case <-giveUp:
+				}
+			})
+			mc := memnet.NewConn()
+			conn, err := diam.NewConn(mc, "a", hf, ctx.Parser)
+			if err != nil {
+				c.Fail(sig("setup"), nil, nil, "NewConn: %v", err)
+				return
+			}
+			synctest.Wait() // the reader is blocked in Read
+			outside := conn.(diam.CloseNotifier).CloseNotify()
+			synctest.Wait()
+			mc.Feed(seqMsg(1, 100))
+			synctest.Wait()
+			if !entered.Load() || woke.Load() {
+				c.Fail(sig("closed-before-termination"), nil, nil, "handler entered=%v, woken=%v while the connection is up", entered.Load(), woke.Load())
+				return
+			}
+			switch tm {
+			case 'E':
+				mc.FeedEOF()
+			case 'R':
+				mc.FeedErr(errors.New("memnet: connection reset by peer"))
+			case 'L':
+				conn.Close()
+			}
+			synctest.Wait()
+			select {
+			case <-outside:
+			default:
+				c.Fail(sig("not-closed-after-termination"), nil, nil, "the connection terminated (%c); CloseNotify had been requested from outside a handler while the reader was blocked, the next message's handler requested it again and waits for it: the channel is not closed at quiescence", tm)
+				return
+			}
+			if !woke.Load() {
+				c.Fail(sig("not-closed-after-termination"), nil, nil, "the connection terminated (%c) but the handler that waits for the CloseNotify channel was not woken", tm)
+				return
+			}
+			c.Event("handler_waits_runs", 1)
+			c.Event("channels_checked", 2)
+		})
+	})
 	// the same with the channel requested by the very handler invocation that then waits for it
 	// (D25, repaired in /repo 195ae7b: the copy routine that notices the end of the connection was
 	// only started by the reader's next Read, i.e. after this handler had returned)
